@@ -47,7 +47,10 @@ def build_workflow(root, targets):
     """targets: dicts with name, ins_expr, outs_expr, spec, optional wd (absolute)"""
     wf = Workflow(working_dir=root)
     for t in targets:
-        if t.get("wd"):
+        if t.get("wd") and t.get("reassign"):
+            tgt = wf.target(t["name"], inputs=ev(t["ins_expr"]), outputs=ev(t["outs_expr"])) << t.get("spec", "")
+            tgt.working_dir = t["wd"]
+        elif t.get("wd"):
             tgt = gwf.core.Target(
                 name=t["name"], inputs=ev(t["ins_expr"]), outputs=ev(t["outs_expr"]), options={}, working_dir=t["wd"], spec=t.get("spec", "")
             )
